@@ -423,7 +423,9 @@ def run_faults(run, vf, prop):
             run.save_text("tlc-life-%s.out" % cid, tv.out)
             raise vf.Inconclusive("trace validation did not run: %s" % (tv.error,))
     run.cov["traces_unexplained"] = unexplained
-    if traces and unexplained * 2 > len(traces):
+    # (a run in which the real client violated the property keeps its verdict: the same deviation usually
+    # also makes the traces unexplainable)
+    if traces and unexplained * 2 > len(traces) and not run.violations:
         raise vf.Inconclusive("%d of %d recorded traces are not explained by the specification" % (unexplained, len(traces)))
     run.cov["rule"] = ("one case per distinct (subscribe calls, fault sequence with injection points and outage flavour, Close point, "
                        "auto-reconnect) generated by TLC from the as-is model; class = that tuple")
